@@ -1,5 +1,5 @@
 """C11 — handler errors arrive intact; registered error types round-trip by code. Theorems: Props_C11.v (Errors.v).
-Correspondence: family `errors` — 11 error kinds x 9 registration-table relations x messages x {error, (value,error)} x
+Correspondence: family `errors` — 13 error kinds x 9 registration-table relations x messages x {error, (value,error)} x
 {http, ws}; the caller's observation (nil?, dynamic type, Error(), fields, value slot) against
 Errors.receive (Errors.serve ...) evaluated in Coq. The harness also judges each case with the property stated directly."""
 import collections
@@ -75,7 +75,7 @@ def run(res):
     hist = collections.Counter((c["type"] or "nil") for c in cases)
     res.add_cov(evaluations=len(cases),
                 distinct_nontrivial=len({(c["kind"], c["msg"], c["shape"], c["transport"], json.dumps(c["sreg"]), json.dumps(c["creg"])) for c in cases if c["kind"] != 0}),
-                rule="11 error kinds (nil, plain value/pointer, marshalable, codec, codec+marshalable, failing UnmarshalJSON, failing FromJSONRPCError, "
+                rule="13 error kinds (nil, plain value/pointer, wrapped registered errors, marshalable, codec, codec+marshalable, failing UnmarshalJSON, failing FromJSONRPCError, "
                      "errors.New, pointer to a value-registered type, value-registered type) x 9 table relations (same, server-only, client-only, none, "
                      "disjoint codes, swapped types, codec codes only, nil client table, nil server table) x 6 messages (empty, escapes, HTML, "
                      "multi-byte UTF-8, control characters, 1500 bytes) x 2 shapes x 2 transports; quick thins messages per kind; non-trivial = a non-nil error",
@@ -112,7 +112,9 @@ def direct_oracle(c):
             data = {"n": c["n"]} if k == 4 else [c["n"], "d"]
             if c["type"] != want or f.get("code") != code or f.get("message") != msg or f.get("data") != data:
                 return "codec error (code %d) did not arrive as %s with its codec-provided fields: %s %s" % (code, want, c["type"], c["fields"])
-    if k in (8, 9) or c["sreg"] is None and k in (1, 2, 10):
+    if k in (11, 12):
+        msg = "ctx: " + msg
+    if k in (8, 9, 11, 12) or c["sreg"] is None and k in (1, 2, 10):
         if c["creg"] is None or 1 not in {r[0] for r in c["creg"]}:
             f = json.loads(c["fields"]) if c["fields"] else {}
             if c["type"] != "*jsonrpc.JSONRPCError" or f.get("code") != 1 or f.get("message") != msg:
